@@ -6,13 +6,16 @@
 // parameters fatih/color wraps that token in, and the colourised text.
 //
 // input    : "m=<n|e> s=<hex> | toks=<start,end,line,col,eline,ecol,params,TYPE/...>"
-//            m=n normal source, m=e embellished text ("foo `1 + 2` bar", hook lexer.VerifNewEmbellished).
-//            Everything after '|' is the OBSERVED token stream, fed to the proved monitor (the model
-//            driver checks the step condition L of Model/C04_Spans.v on every real step).
+//
+//	m=n normal source, m=e embellished text ("foo `1 + 2` bar", hook lexer.VerifNewEmbellished).
+//	Everything after '|' is the OBSERVED token stream, fed to the proved monitor (the model
+//	driver checks the step condition L of Model/C04_Spans.v on every real step).
+//
 // observed : "n=<tokens>;end=<eof|limit|panic ...>;col=<hex of Colorize(src)>;o2=<ok|reason>"
-//            o2 is the second, independent oracle evaluated here on the implementation's own
-//            outputs: spans reassemble the source, gaps hold only what the lexer skips, positions
-//            recounted with strings/utf8 functions, regexp-stripped colouring equals the source.
+//
+//	o2 is the second, independent oracle evaluated here on the implementation's own
+//	outputs: spans reassemble the source, gaps hold only what the lexer skips, positions
+//	recounted with strings/utf8 functions, regexp-stripped colouring equals the source.
 //
 // -extra exh:<k> enumerates ALL strings of at most k symbols over the 24-symbol alphabet below
 // (instead of -n random cases).
@@ -464,7 +467,11 @@ func (g *gen) expr(n int) string {
 		case 8:
 			b.WriteString(g.pick(runesMB))
 		case 9:
-			b.WriteString(g.pick(badUTF8))
+			if g.r.Chance(1, 2) {
+				b.WriteString(g.pick(badUTF8))
+			} else {
+				b.WriteString(g.pick(runesMB) + g.pick(idents))
+			}
 		default:
 			b.WriteString(g.pick(blanks))
 		}
